@@ -53,11 +53,11 @@ def step (t : Tracker) (line : String) : Tracker × String :=
   | "usesack" :: _ => let t' := { t with useSack := true }; (t', s!"usesack {showState t'}")
   | "pkt" :: a :: es => match a.toNat?, parseEdges es with
     | some k, some e => if es.length > 60 then (t, "bad-op") else
-      packet "pkt" t k (match e with | none => .absent | some l => .edges l)
+      packet "pkt" t k (match e with | none => .absent | some l => decodeSack (encodeEdges l))
     | _, _ => (t, "bad-op")
   | "pktw" :: a :: es => match a.toNat?, parseEdges es with
     | some k, some e => if es.length > 8 || es == ["-"] then (t, "bad-op") else
-      packet "pktw" t k (match e with | none => .absent | some l => .edges l)
+      packet "pktw" t k (match e with | none => .absent | some l => decodeSack (encodeEdges l))
     | _, _ => (t, "bad-op")
   | "pktn" :: _ => (t, s!"pktn {showState t} grid={showGrid t}")
   | "opt" :: a :: h :: _ => match a.toNat?, parseHex h with
